@@ -187,6 +187,10 @@ def run(module, cfg, *, workers=16, simulate=None, depth=None, seed=None, timeou
             if m:
                 res.violated = m.group(1)
                 continue
+            m = re.match(r"^Error: The invariant of (\S+) is equal to FALSE", line)
+            if m:
+                res.violated = m.group(1)
+                continue
             m = re.match(r"^Error: Action property (\S+) is violated", line)
             if m:
                 res.violated = m.group(1)
